@@ -64,8 +64,14 @@ def _validate(sc, files, parallel=4, timeout=1500):
 
 def run(sc, tier, seed):
     R = V.Result("C14", tier, seed)
-    cfg = "TaskStore_quick.cfg" if tier == "quick" else "TaskStore_thorough.cfg"
-    R.add_model(V.model_check(sc, MOD, "TaskStoreMC.tla", cfg, workers=8, timeout=2400))
+    if tier == "quick":
+        # reduced request alphabet, histories <= 4, one crash
+        R.add_model(V.model_check(sc, MOD, "TaskStoreMC.tla", "TaskStore_quick.cfg", workers=8, timeout=1500))
+    else:
+        # full alphabet (start failures, batch task, environment changes), histories <= 4, two crashes ...
+        R.add_model(V.model_check(sc, MOD, "TaskStoreMC.tla", "TaskStore_thorough.cfg", workers=8, timeout=2400))
+        # ... and the reduced alphabet with histories <= 5, one crash
+        R.add_model(V.model_check(sc, MOD, "TaskStoreMC.tla", "TaskStore_thorough5.cfg", workers=8, timeout=2400))
     obs = V.model_check(sc, MOD, "TaskStoreMC.tla", "TaskStore_obs.cfg", workers=2, timeout=600,
                         expect_violation=["CrashAtomic"])
     R.notes["model_counterexample_without_named_crash_classes"] = obs["violated"] or "none"
@@ -74,7 +80,7 @@ def run(sc, tier, seed):
     R.notes["model_counterexample_handlers_before_fixes"] = asf["violated"] or "none"
     out, meta = V.run_driver(sc, "c14", tier, seed, timeout=2400)
     R.add_meta(meta)
-    val = _validate(sc, meta["trace_files"])
+    val = _validate(sc, meta["trace_files"], parallel=4 if tier == "quick" else 6)
     R.states += val["states"]
     R.handle_validation(val, what="history of the real task store is not a behaviour of TaskStore / violates C14")
     R.notes["impl_drift"] = val["drift"]
